@@ -111,6 +111,7 @@ def reader_scope_table(prog, sl):
     g = prog.fn(L.R_LAYER)
     root = L.param_pred(g, 0)
     table, detail = {}, {}
+    del LISTED_KEYS[:]
     fns = [g] + prog.closures_of(g)
     assigned = []
     for f in fns:
@@ -185,6 +186,9 @@ def _scan(sl, f, bb, v, scope, root, table, detail, keyv=None):
                             _record(f, bb, y, scope, [kv], root, table, detail)
 
 
+LISTED_KEYS = []   # (scope, fn, bb, path value of the listed directory entry, [key values]) of the last reader_scope_table()
+
+
 def _record(f, bb, x, scope, kvs, root, table, detail):
     pv = strip(x[2][0])
     cs = L.comps(pv, root)
@@ -199,6 +203,7 @@ def _record(f, bb, x, scope, kvs, root, table, detail):
             cs = base + ('<key>' if key_ok else '<not-the-directory-name>',)
             if not sc.endswith('[*]'):
                 sc = sc + '[*]'
+            LISTED_KEYS.append((sc, f, bb, pv, list(kvs)))
     table[sc] = cs
     detail[sc] = (f, bb, x)
 
@@ -1063,3 +1068,435 @@ class GrowSlicer(Slicer):
         for p in parts[1:]:
             out = ('call', iters.IT + 'chain', (out, p), None)
         return out
+
+
+# ---------------------------------------------------------------------------------------------------------------------
+# R6: completeness of the iterations an effect runs in (every entry is written / every listed file is read)
+# ---------------------------------------------------------------------------------------------------------------------
+def _has_site(v, site):
+    return any(x[0] == 'call' and len(x) == 4 and x[3] == site for x in walk(v))
+
+
+def loop_early_success(E, lp):
+    """success sites of the loop's function that can be reached from the loop header without taking the exhaustion
+    edge (`next()` returned None): a `break` / `return Ok(..)` out of the body.  None if the loop's exit structure is
+    not recognised.  (`?` inside the body leaves through an Err definition of the return place: not a success site.)"""
+    fn = lp.fn
+    ex = getattr(lp, 'exhaust', None)
+    if ex is None:
+        return None
+    src, tgt = ex
+    seen, work = set(), [lp.header]
+    while work:
+        b = work.pop()
+        if b in seen:
+            continue
+        seen.add(b)
+        for s in fn.succs(b):
+            if b == src and s == tgt:
+                continue
+            work.append(s)
+    return sorted(seen & {s.bb for s in E.sites(fn)})
+
+
+def iteration_contexts(E, e):
+    """the loops / iterator calls effect e runs in, outermost first, at every level of its call chain:
+    [('loop', fn, Loop, call inside the body, mapping) | ('iter', fn, iterator Call taking the closure, same, mapping)]"""
+    out = []
+    levels = [(l.call, l.mapping) for l in e.chain] + [(e.call, e.mapping)]
+    for call, m in levels:
+        fn = call.fn
+        inside = [lp for lp in E.loops(fn) if call.bb in lp.body and call.bb != lp.header]
+        inside.sort(key=lambda lp: -len(lp.body))
+        for lp in inside:
+            out.append(('loop', fn, lp, call, m or {}))
+        if call is not e.call and not call.indirect and (call.decl or '').startswith('std::iter::') and \
+                any(a[0] == 'closure' for a in (E.slicer.operand(fn, x) for x in call.args)):
+            out.append(('iter', fn, call, call, m or {}))
+    return out
+
+
+FILTER_POLICY = [None]    # 'file-type': per-element filters are acceptable only when they are file-type tests (reader side)
+
+
+def _collection_verdict(E, coll, m, probs, unknown):
+    """base collection (entry terms) an iterated expression ranges over, and whether elements are dropped on the way"""
+    sl = E.slicer
+    al = iters.alts(sl, coll)
+    if len(al) != 1 or al[0][1] is None:
+        unknown.append('iterated expression is not a single collection: %s' % vstr(coll)[:80])
+        return None, None
+    flag = al[0][2]
+    if flag and flag != 'trunc' and FILTER_POLICY[0] == 'file-type':
+        for x in unrecognised_filters(sl, coll):
+            unknown.append('%s: its predicate is not recognised as a file-type test, listed files may be dropped' % x)
+    if any(st[3] for st in iters.stages(coll, with_stop=True)):
+        flag = 'trunc'
+    return E.subst(al[0][1], m), flag
+
+
+def context_verdict(E, ctx):
+    """(base collection | None, flag: False | True (per-element filter) | 'trunc', problems, unknown) of one context"""
+    kind, fn, obj, call, m = ctx
+    sl = E.slicer
+    probs, unknown = [], []
+    if kind == 'loop':
+        early = loop_early_success(E, obj)
+        if early is None:
+            unknown.append('exit structure of the loop at %s:bb%d is not recognised' % (fn.path.split('::')[-1], obj.header))
+        elif early:
+            probs.append('the loop can be left early (break / return) with the function still succeeding')
+        base, flag = _collection_verdict(E, obj.collection, m, probs, unknown)
+        return base, flag, probs, unknown
+    c = obj
+    d = c.decl
+    if d in iters.CONSUME_EACH or d in (iters.IT + 'fold', iters.IT + 'try_fold'):
+        if E._short_circuits(fn, c):
+            probs.append('%s stops at the first failure and that failure can still end in success' % d.split('::')[-1])
+        base, flag = _collection_verdict(E, sl.operand(fn, c.args[0]), m, probs, unknown)
+        return base, flag, probs, unknown
+    if d in iters.LAZY_WITH_CLOSURE:
+        # a lazy stage: find what pulls it (a loop over / a consumer of an expression containing this call)
+        site = (fn.path, c.bb)
+        pullers = []
+        for lp in E.loops(fn):
+            if lp.collection is not None and _has_site(lp.collection, site):
+                pullers.append(('loop', lp, lp.collection))
+        for c2 in fn.calls:
+            if c2.indirect or c2 is c or not (c2.decl in iters.CONSUME_EACH or c2.decl in iters.CONSUME_ALL):
+                continue
+            ridx = 1 if c2.decl == 'std::iter::Extend::extend' else 0
+            if ridx < len(c2.args):
+                rv = sl.operand(fn, c2.args[ridx])
+                if _has_site(rv, site):
+                    pullers.append(('consumer', c2, rv))
+        # a puller of a puller (collect, then loop over the Vec) names the same stage twice: keep the innermost view
+        if not pullers:
+            unknown.append('the %s stage at %s is not consumed by a recognised loop / consumer' % (d.split('::')[-1], c.where()))
+            return None, None, probs, unknown
+        base = flag = None
+        for pk, p, full in pullers:
+            if pk == 'loop':
+                early = loop_early_success(E, p)
+                if early is None:
+                    unknown.append('exit structure of the loop pulling the %s stage is not recognised' % d.split('::')[-1])
+                elif early:
+                    probs.append('the loop pulling the %s stage can be left early with the function still succeeding' % d.split('::')[-1])
+            elif E._short_circuits(fn, p):
+                probs.append('%s stops at the first failure and that failure can still end in success' % p.decl.split('::')[-1])
+            mine = [st for st in iters.stages(full, with_stop=True) if st[1][0] == 'closure' and any(
+                a[0] == 'closure' and a[1] == st[1][1] for a in (sl.operand(fn, x) for x in c.args))]
+            if any(st[3] for st in mine) or d in iters.STOPS_EARLY:
+                probs.append('a later stage (take / take_while / map_while / scan) stops pulling: not every element reaches the %s closure' % d.split('::')[-1])
+            b2, f2 = _collection_verdict(E, sl.operand(fn, c.args[0]), m, probs, unknown)
+            base, flag = b2, f2
+        return base, flag, probs, unknown
+    unknown.append('iterator call %s is not modelled' % d)
+    return None, None, probs, unknown
+
+
+def completeness(E, e, is_base, allow_filter=False):
+    """does effect e run for every element of the collection recognised by is_base(value)?
+    -> (found: a context ranges over that collection, problems, unknown)"""
+    found, probs, unknown = False, [], []
+    FILTER_POLICY[0] = allow_filter if allow_filter == 'file-type' else None
+    for ctx in iteration_contexts(E, e):
+        base, flag, p, u = context_verdict(E, ctx)
+        probs.extend(p)
+        unknown.extend(u)
+        if base is not None and is_base(base):
+            found = True
+        if flag == 'trunc':
+            probs.append('elements are dropped by position (take / skip / take_while / map_while / step_by)')
+        elif flag and not allow_filter:
+            probs.append('elements are filtered out before the effect')
+    return found, probs, unknown
+
+
+def per_iteration(E, e, is_base):
+    """in the loop contexts over the recognised collection: does the call leading to e lie on every path from the loop
+    header back to it (dominates every latch)?  -> list of problems"""
+    probs = []
+    for kind, fn, obj, call, m in iteration_contexts(E, e):
+        if kind != 'loop':
+            continue
+        base, _, _, _ = context_verdict(E, (kind, fn, obj, call, m))
+        if base is None or not is_base(base):
+            continue
+        if not all(fn.dominates(call.bb, l) or call.bb == l for l in obj.latches):
+            probs.append('an iteration can reach the next element without performing %s (continue / conditional)' % (call.name or '?').split('::')[-1])
+    return probs
+
+
+# ---- guards of the per-entry write --------------------------------------------------------------------------------
+def _is_entries(wd, v):
+    v = strip(v)
+    while v[0] == 'call' and len(v[2]) == 1 and iters._is_source(v[1]) and v[1].endswith(iters.SAME_ELEMS):
+        v = strip(v[2][0])
+    return L.self_field(wd, v) == 'entries'
+
+
+def _nonempty_test(wd, val, oc):
+    """is (val == oc) the statement `self.entries is not empty`?"""
+    val = strip(val)
+    if val[0] == 'call' and len(val[2]) == 1 and val[1].endswith('::is_empty') and _is_entries(wd, val[2][0]):
+        return oc is False
+    if val[0] == 'bin' and len(val) == 4:
+        a, b = strip(val[2]), strip(val[3])
+        ln = lambda x: x[0] == 'call' and len(x[2]) == 1 and x[1].endswith('::len') and _is_entries(wd, x[2][0])
+        zero = lambda x: x[0] == 'const' and x[1] == 0 and not isinstance(x[1], bool)
+        one = lambda x: x[0] == 'const' and x[1] == 1 and not isinstance(x[1], bool)
+        op = val[1]
+        if ln(a) and zero(b):
+            return (op, oc) in (('Ne', True), ('Eq', False), ('Gt', True), ('Le', False))
+        if zero(a) and ln(b):
+            return (op, oc) in (('Ne', True), ('Eq', False), ('Lt', True), ('Ge', False))
+        if ln(a) and one(b):
+            return (op, oc) in (('Ge', True), ('Lt', False))
+    return False
+
+
+def write_guard_problems(E, e, wd):
+    """guards of a per-entry file write that are not implied by `the entry exists`:
+    -> (problems, set of ModificationBehavior variants the write is restricted to | None)"""
+    mutating = {n for n, (k, _) in E.vocab.items() if k in ('MKDIR', 'WRITE', 'REMOVE_TREE', 'REMOVE_DIR', 'REMOVE_FILE', 'OPEN')}
+    probs, variants = [], None
+    for cd, views, subj in guards_of(E, e):
+        if cd.kind == 'variant':
+            s = strip(subj) if subj is not None else None
+            if cd.enum == CFLOW and cd.outcome == frozenset({'Continue'}):
+                continue       # an earlier `?` succeeded
+            if cd.enum == OPTION and cd.outcome == frozenset({'Some'}) and s is not None and s[0] == 'call' and s[1] == iters.IT + 'next':
+                continue       # the iteration itself
+            if cd.enum == RESULT and cd.outcome == frozenset({'Ok'}) and s is not None and s[0] == 'call' and s[1] in mutating:
+                continue       # an earlier fs mutation succeeded (explicit match instead of `?`)
+            if cd.enum == L.MB:
+                variants = set(cd.outcome) if variants is None else (variants & set(cd.outcome))
+                continue
+            probs.append(repr(cd))
+            continue
+        if cd.kind == 'bool':
+            if any(_nonempty_test(wd, val, oc) for val, oc in views):
+                continue
+            probs.append(repr(cd))
+            continue
+        if cd.kind == 'int':
+            v = strip(views[0][0])
+            if v[0] == 'call' and len(v[2]) == 1 and v[1].endswith('::len') and _is_entries(wd, v[2][0]) and cd.outcome == ('not', (0,)):
+                continue
+            probs.append(repr(cd))
+            continue
+        probs.append(repr(cd))
+    return probs, variants
+
+
+# ---- guards of the reader's insert ------------------------------------------------------------------------------------
+CONTENT_READS = FILE_READS + ('std::io::Read::read_to_end', 'std::io::Read::read_to_string', 'std::io::Read::read',
+                              'std::io::Read::read_exact', 'std::io::BufRead::lines', 'std::io::BufRead::read_line')
+
+
+def _mentions_content(v):
+    return any(x[0] == 'call' and x[1] in CONTENT_READS for x in walk(v))
+
+
+def content_guards(E, e):
+    """guards of effect e whose decision depends on the *content* of a file (not on its name / type): whether a file of
+    an env directory becomes an entry must not depend on its bytes.  The success test of the read itself (`?`, a match on
+    its Result) is error handling, not a content test."""
+    out = []
+    for cd, views, subj in guards_of(E, e):
+        if cd.kind == 'variant':
+            s = subj
+            if s is None or not _mentions_content(s):
+                continue
+            # Try::branch(read(..)) / read(..) itself / Ok-preserving wrappers of it
+            t = strip(s)
+            for _ in range(6):
+                if t[0] == 'call' and t[2] and (t[1] == 'std::ops::Try::branch' or t[1] in OK_PRESERVING):
+                    t = strip(t[2][0])
+                else:
+                    break
+            if t[0] == 'call' and t[1] in CONTENT_READS:
+                continue
+            out.append(cd)
+        elif any(_mentions_content(val) for val, _ in views):
+            out.append(cd)
+    return out
+
+
+# ---- names -----------------------------------------------------------------------------------------------------------
+NAME_CONVERSIONS = ('std::ffi::OsStr::to_str', 'std::ffi::OsStr::to_os_string', 'std::ffi::OsString::into_string',
+                    'std::ffi::OsStr::to_string_lossy', 'std::borrow::Cow::<B>::into_owned', 'std::borrow::Cow::<\'_, B>::into_owned',
+                    'std::ffi::OsStr::to_owned', 'std::ffi::OsString::as_os_str')
+
+
+def peel_name(sl, v):
+    """a name value with representation changes (OsStr <-> str <-> String) peeled"""
+    v = strip(v)
+    for _ in range(8):
+        if v[0] == 'call' and len(v[2]) == 1 and (v[1] in NAME_CONVERSIONS or _name_transparent(v[1])):
+            v = strip(v[2][0])
+        else:
+            break
+    return v
+
+
+def entry_elements(v):
+    """the `Iterator::next(..)` element values a path / test value is derived from"""
+    return {canon(x) for x in walk(v) if x[0] == 'call' and x[1] == iters.IT + 'next'}
+
+
+# ---------------------------------------------------------------------------------------------------------------------
+# R6: lazy stages that drop listed entries, and "every regular file with extension X reaches the insert"
+# ---------------------------------------------------------------------------------------------------------------------
+_DROPPING = {iters.IT + 'filter': 'filter', iters.IT + 'filter_map': 'filter_map', iters.IT + 'flat_map': 'flat_map',
+             iters.IT + 'flatten': 'flatten', iters.IT + 'zip': 'zip'}
+
+
+def unrecognised_filters(sl, coll):
+    """per-element dropping stages of an iterated expression whose predicate is not a plain file-type test of the element
+    (`filter(|p| !p.is_dir())` is the skip-directories rule in another spelling; anything else may drop env files)"""
+    out = []
+    v = coll
+    for _ in range(16):
+        if not isinstance(v, tuple) or not v:
+            break
+        if v[0] in ('unwrap', 'updated'):
+            v = v[1]
+            continue
+        if v[0] != 'call' or not v[2]:
+            break
+        name, args = v[1], v[2]
+        if name in _DROPPING:
+            ok = False
+            if name == iters.IT + 'filter' and len(args) == 2:
+                al = iters.alts(sl, args[0])
+                if len(al) == 1:
+                    r = sl.apply_closure(args[1], (al[0][0],))
+                    while r is not None and r[0] == 'un' and r[1] == 'Not':
+                        r = r[2]
+                    r = strip(r) if r is not None else None
+                    ok = r is not None and r[0] == 'call' and r[1] in FILE_TESTS
+            if not ok:
+                out.append('%s stage on the listing' % _DROPPING[name])
+            v = args[0]
+        elif name in iters.SAME or name in iters.FEWER or name in iters.COLLECTING or name in (iters.IT + 'enumerate', iters.IT + 'map',
+                                                                                           iters.IT + 'map_while', iters.IT + 'chain') \
+                or iters._is_source(name):
+            v = args[0]
+        else:
+            break
+    return out
+
+
+def _act_chain(root, target, seen=None):
+    """[(Act, block of the call that runs the next activation)] from root down to (excluding) target, or None"""
+    seen = set() if seen is None else seen
+    if root is target:
+        return []
+    if id(root) in seen:
+        return None
+    seen.add(id(root))
+    for bb, subs in list(root.children.items()):
+        for s in subs:
+            r = _act_chain(s, target, seen)
+            if r is not None:
+                return [(root, bb)] + r
+    return None
+
+
+def _skip_edges(act):
+    """edges taken when a file-type test says `this entry is not a regular file` (directory): the legitimate way past
+    the insert"""
+    fn = act.fn
+    out = set()
+    for sb in act.feasible:
+        t = fn.blocks[sb]['t']
+        if t['t'] != 'switch' or t.get('oty') != 'bool':
+            continue
+        try:
+            v = act.operand(t['o'])
+        except RecursionError:
+            continue
+        neg = False
+        while v[0] == 'un' and v[1] == 'Not':
+            v, neg = v[2], not neg
+        v = strip(v)
+        if not (v[0] == 'call' and v[1] in FILE_TESTS):
+            continue
+        file_outcome = FILE_TESTS[v[1]] != neg      # value of the switch operand when the entry is a regular file
+        listed = dict((val, tb) for val, tb in t['targets'])
+        for val in (0, 1):
+            tb = listed.get(val, t['else'])
+            if bool(val) != file_outcome:
+                out.add((sb, tb))
+    return out
+
+
+def _bypass(E, act, targets, is_listing):
+    """can control pass from the start of an iteration (listing loop header, or the entry of a closure / helper) to its
+    end (latch / success return) over scenario-feasible blocks without running one of the target blocks and without taking
+    a file-type skip edge?  -> 'yes' | 'no' | 'nested' (targets sit in an inner loop that is not the listing loop)"""
+    fn = act.fn
+    feas = act.feasible
+    loops = [lp for lp in E.loops(fn) if any(b in lp.body and b != lp.header for b in targets)]
+    listing = []
+    for lp in loops:
+        al = iters.alts(E.slicer, lp.collection) if lp.collection is not None else []
+        if len(al) == 1 and al[0][1] is not None and is_listing(al[0][1]):
+            listing.append(lp)
+    if loops and not listing:
+        return 'nested'
+    if listing:
+        lp = max(listing, key=lambda x: len(x.body))
+        if any(x is not lp and len(x.body) < len(lp.body) for x in loops):
+            return 'nested'
+        start, ends, region = lp.header, set(lp.latches), lp.body
+    else:
+        start, ends, region = 0, {s.bb for s in E.sites(fn)}, None
+    skip = _skip_edges(act)
+    seen, work = set(), [start]
+    while work:
+        b = work.pop()
+        if b in seen or b not in feas or (region is not None and b not in region):
+            continue
+        seen.add(b)
+        if b in targets:
+            continue
+        if b in ends and b != start:
+            return 'yes'
+        for s in fn.succs(b):
+            if (b, s) not in skip:
+                work.append(s)
+    return 'no'
+
+
+def must_insert(prog, sl, E, h, ext, is_listing):
+    """under `Path::extension(..) == ext`: does every listed entry that is not a directory reach the delta insert?
+    -> (problems, unknown)"""
+    try:
+        evs, I = run_scenario(prog, sl, h, ext)
+        root = I.activation(h, tuple(('param', h.path, i, h.local_name(i + 1)) for i in range(h.argc)))
+    except RecursionError:
+        return [], ['evaluation did not terminate']
+    if not evs:
+        return [], ['no insert reached']
+    per_act = {}
+    unknown, probs = [], []
+    for c, args, act in evs:
+        chain = _act_chain(root, act)
+        if chain is None:
+            unknown.append('the activation containing the insert at %s is not reached from the reader' % c.where())
+            continue
+        for a, bb in chain + [(act, c.bb)]:
+            per_act.setdefault(id(a), (a, set()))[1].add(bb)
+    for a, bbs in per_act.values():
+        try:
+            r = _bypass(E, a, bbs, is_listing)
+        except RecursionError:
+            r = 'nested'
+        if r == 'yes':
+            probs.append('in %s a listed entry that is not a directory can be passed over without reaching the insert' % a.fn.path.split('::')[-1])
+        elif r == 'nested':
+            unknown.append('the insert sits in an inner loop of %s' % a.fn.path.split('::')[-1])
+    return probs, unknown
